@@ -1038,9 +1038,39 @@ static void do_oneshot(World &w, TaskState &t, const Op &op, int index) {
     }
 }
 
+// Upper bound (generous) on the permutation calls an op can legitimately need, from its arguments alone.
+// The hang budget is derived from it, so that heavy but legal workloads (65 536 feeds, 1 MiB generates,
+// exhausting an HKDF object) are never mistaken for a library call that does not return.
+static uint64_t est_perm_calls(const Op &op) {
+    uint64_t a = op.a, b = op.b, c = op.c, d = op.d;
+    uint64_t scripts = 0;
+    for (auto &s : op.os) scripts += s.size() + 70;
+    switch (op.kind) {
+    case H_INIT: case H_REINIT: case H_FREE: case H_DIRTY: case H_FINAL: return 16;
+    case H_UPDATE: case H_ONESHOT: return 2 * (a / 16 + 8);
+    case M_INIT: case M_REINIT: case M_FINAL: case M_FREE: case M_DIRTY: return 2 * (a / 16 + 2200 / 16 + 40);
+    case M_UPDATE: return 2 * (a / 16 + 8);
+    case M_ONESHOT: return 4 * ((a + b) / 16 + 40);
+    case K_EXTRACT: return 4 * ((a + b) / 16 + 60);
+    case K_EXPAND: return (std::min<uint64_t>(a, 8160) / 32 + 2) * (2 * (600 / 16 + 40)) + 64;
+    case K_ONESHOT: return (std::min<uint64_t>(a, 8160) / 32 + 2) * (2 * ((d + 64) / 16 + 40)) + 4 * ((b + c) / 16 + 60);
+    case K_FREE: case K_DIRTY: case X_CLEAN: case P_LIMIT: case P_FREE: case P_DIRTY: return 16;
+    case P_INIT: return 2 * (a / 16 + 40) + scripts;
+    case P_GEN: return (a / 32 + 2) * 64 + scripts;
+    case P_FEED: return (1 + b) * 2 * (a / 16 + 24);
+    case P_RESEED: return 80 + scripts;
+    case T_GENERATE: return 80 + scripts;
+    case A_ENC: case A_DEC: case S_ENC: case S_DEC: return 4 * ((b + c) / 4 + 40);
+    case B_PBKDF2: return (a / 32 + 2) * (std::max<uint64_t>(d, 1) + 1) * 4 * ((b + c) / 16 + 40);
+    default: return 64;
+    }
+}
+
 // ---------------------------------------------------------------- dispatch
 void exec_op(World &w, TaskState &t, const Op &op, int index) {
     t.cur.op = &op; t.cur.index = index;
+    t.cur.op_events = 0;
+    t.cur.op_budget = 400000 + 2000 * est_perm_calls(op);   // >= 20x the yield points a permutation call can produce
     {   // errno the caller happens to hold when it enters the library: a seeded value, so that code which
         // (wrongly) looks at errno after a successful call behaves the same in every process
         static const int E[4] = {0, EINTR, EAGAIN, EIO};
@@ -1060,6 +1090,10 @@ void exec_op(World &w, TaskState &t, const Op &op, int index) {
     case A_ENC: case A_DEC: case S_ENC: case S_DEC: do_aead(w, t, op, index); break;
     case H_ONESHOT: case B_PBKDF2: do_oneshot(w, t, op, index); break;
     default: break;
+    }
+    if (w.stats && t.cur.op_budget) {
+        uint64_t pm = t.cur.op_events * 1000 / t.cur.op_budget;
+        if (pm > w.stats->max_budget_permille) w.stats->max_budget_permille = pm;
     }
     if (w.heap_calls != heap0)
         report(w, C19, "heap-call", std::string("library code called the allocator during ") + op_name(op.kind));
